@@ -2,7 +2,10 @@
 
 package service
 
-import "sync"
+import (
+	"sync"
+	"time"
+)
 
 // VerifYield, when set, is called before every acquisition of the replay cache lock with the kind of
 // acquisition ("Lock" or "RLock"). A cooperative scheduler in the verification harness uses it to
@@ -36,4 +39,10 @@ func (m *cacheMutex) RUnlock() { m.mu.RUnlock() }
 // cleaner goroutine, so that a harness can replay histories on independent caches.
 func NewCacheForVerif() *Cache {
 	return &Cache{entries: make(map[string]clientEntries)}
+}
+
+// NewCacheForVerifMaxAge is NewCacheForVerif with the retention period set as GetReplayCache(d) sets it for
+// the process-wide cache, so that histories run on a cache configured like the one in production.
+func NewCacheForVerifMaxAge(d time.Duration) *Cache {
+	return &Cache{entries: make(map[string]clientEntries), maxAge: d}
 }
